@@ -107,30 +107,30 @@ FUNCTIONS["anneal_quso"] = {
     "file": "anneal_quso.c",
     "entry_point": True,
     "requires": [
-        ("num_anneals >= 1", "_anneal.py:425-426 returns before calling C when num_anneals <= 0; _canneal.c:131 parses it with 'i'"),
-        ("len_state >= 1", "_anneal.py:449-452 returns before calling C when N == 0; _anneal.py:462 h = [0.]*N; _canneal.c:139 len_state = PyList_Size(py_h)"),
-        ("len(h) == len_state", "_canneal.c:142 malloc(len_state * sizeof(double))"),
-        ("initialised(h, len_state)", "_canneal.c:149-152 fills h[i], num_neighbors[i] for i < len_state"),
-        ("len(num_neighbors) == len_state", "_anneal.py:462 num_neighbors = [0]*N; _canneal.c:143"),
-        ("initialised(num_neighbors, len_state)", "_canneal.c:149-152"),
+        ("num_anneals >= 1", "_anneal.py:425-426 returns before calling C when num_anneals <= 0; _canneal.c:134-137 parses it with 'i'"),
+        ("len_state >= 1", "_anneal.py:449-452 returns before calling C when N == 0; _anneal.py:462 h = [0.]*N; _canneal.c:141 len_state = PyList_Size(py_h)"),
+        ("len(h) == len_state", "_canneal.c:144 malloc(len_state * sizeof(double))"),
+        ("initialised(h, len_state)", "_canneal.c:151-154 fills h[i], num_neighbors[i] for i < len_state"),
+        ("len(num_neighbors) == len_state", "_anneal.py:462 num_neighbors = [0]*N; _canneal.c:145"),
+        ("initialised(num_neighbors, len_state)", "_canneal.c:151-154"),
         ("forall(k, 0, len_state, num_neighbors[k] >= 0)", "_anneal.py:462,473-474 starts at 0 and is only incremented"),
-        ("len(J) == len(neighbors)", "_anneal.py:471-476 J[i] and neighbors[i] are appended to together; _canneal.c:140,144-145 both buffers get len_J cells"),
-        ("initialised(neighbors, len(neighbors))", "_canneal.c:153-156 fills neighbors[i], J[i] for i < len_J"),
-        ("initialised(J, len(J))", "_canneal.c:153-156"),
+        ("len(J) == len(neighbors)", "_anneal.py:471-476 J[i] and neighbors[i] are appended to together; _canneal.c:142,146-147 both buffers get len_J cells"),
+        ("initialised(neighbors, len(neighbors))", "_canneal.c:155-158 fills neighbors[i], J[i] for i < len_J"),
+        ("initialised(J, len(J))", "_canneal.c:155-158"),
         ("psum(num_neighbors, len_state) == len(neighbors)",
          "_anneal.py:471-474,479 num_neighbors[i] == len(neighbors[i]) for every i and the flat list is chain(*neighbors)"),
         ("forall(k, 0, len(neighbors), 0 <= neighbors[k] and neighbors[k] < len_state)",
-         "_anneal.py:463,469-472 the entries are indices i, j that were used to subscript lists of length N"),
-        ("len(Ts) == len_Ts", "_canneal.c:141,146"),
-        ("initialised(Ts, len_Ts)", "_canneal.c:157-159"),
-        ("len(values) == num_anneals", "_canneal.c:162 malloc(num_anneals * sizeof(double))"),
-        ("len(states) == num_anneals * len_state", "_canneal.c:163 malloc(num_anneals * len_state * sizeof(int))"),
-        (_STATES_IN, "_canneal.c:165-176 the buffer is filled from initial_state exactly when initial_state_provided != 0; "
+         "_anneal.py:433-444 model is L (QUSOMatrix: labels are non-negative ints <= max_index = N-1) or L.to_quso() (labels 0..num_binary_variables-1 = 0..N-1); :469-472 exactly those labels are appended"),
+        ("len(Ts) == len_Ts", "_canneal.c:143,148"),
+        ("initialised(Ts, len_Ts)", "_canneal.c:159-161"),
+        ("len(values) == num_anneals", "_canneal.c:164 malloc(num_anneals * sizeof(double))"),
+        ("len(states) == num_anneals * len_state", "_canneal.c:165 malloc(num_anneals * len_state * sizeof(int))"),
+        (_STATES_IN, "_canneal.c:167-178 the buffer is filled from initial_state exactly when initial_state_provided != 0; "
                      "_anneal.py:454-457 and the docstring (:347-349): initial_state maps every label to 1 or -1"),
     ],
     "assumes": [
         ("num_anneals * len_state <= INT_MAX",
-         "size product fits in int: _canneal.c:163 computes num_anneals * len_state in int and the kernel computes "
+         "size product fits in int: _canneal.c:165 computes num_anneals * len_state in int and the kernel computes "
          "i * len_state + j in int; nothing in the Python front end bounds num_anneals * N"),
     ],
     "lemmas": ["psum_bounds(num_neighbors, len_state)"],
@@ -205,28 +205,28 @@ FUNCTIONS["anneal_puso"] = {
     "entry_point": True,
     "requires": [
         ("num_anneals >= 1", "_anneal.py:265-266 returns before calling C when num_anneals <= 0"),
-        ("len_state >= 1", "_anneal.py:295-298 returns before calling C when N == 0; _canneal.c:258 parses N with 'i'"),
-        ("num_terms >= 0", "_canneal.c:269 num_terms = PyList_Size(py_couplings); it IS 0 for a model whose only key is () "
+        ("len_state >= 1", "_anneal.py:295-298 returns before calling C when N == 0; _canneal.c:261-265 parses N with 'i'"),
+        ("num_terms >= 0", "_canneal.c:270 num_terms = PyList_Size(py_couplings); it IS 0 for a model whose only key is () "
                            "(_anneal.py:310-314 skips the empty term) while N >= 1 (PUSOMatrix/ max_index, or a QUSO/PUSO that "
                            "remembers variables whose terms cancelled)"),
-        ("len(num_couplings) == num_terms", "_anneal.py:312-314 couplings and num_couplings are appended to together; _canneal.c:270"),
-        ("len(couplings) == num_terms", "_canneal.c:273"),
-        ("initialised(num_couplings, num_terms)", "_canneal.c:279-282"),
-        ("initialised(couplings, num_terms)", "_canneal.c:279-282"),
+        ("len(num_couplings) == num_terms", "_anneal.py:312-314 couplings and num_couplings are appended to together; _canneal.c:271 malloc(num_terms * sizeof(int))"),
+        ("len(couplings) == num_terms", "_canneal.c:274"),
+        ("initialised(num_couplings, num_terms)", "_canneal.c:280-283"),
+        ("initialised(couplings, num_terms)", "_canneal.c:280-283"),
         ("forall(t, 0, num_terms, num_couplings[t] >= 1)", "_anneal.py:311,314 only non-empty terms are appended and num_couplings gets len(term)"),
-        ("psum(num_couplings, num_terms) == len(terms)", "_anneal.py:313-314 terms.extend(term) together with num_couplings.append(len(term)); _canneal.c:271-272"),
-        ("initialised(terms, len(terms))", "_canneal.c:276-278"),
+        ("psum(num_couplings, num_terms) == len(terms)", "_anneal.py:313-314 terms.extend(term) together with num_couplings.append(len(term)); _canneal.c:272-273 terms gets PyList_Size(py_terms) cells"),
+        ("initialised(terms, len(terms))", "_canneal.c:277-279"),
         ("forall(k, 0, len(terms), 0 <= terms[k] and terms[k] < len_state)",
          "_anneal.py:274,281-282 model is H (Matrix: labels 0..max_index, N = max_index+1) or H.to_puso() (labels 0..num_binary_variables-1)"),
-        ("len(Ts) == len_Ts", "_canneal.c:267-268"),
-        ("initialised(Ts, len_Ts)", "_canneal.c:283-285"),
-        ("len(values) == num_anneals", "_canneal.c:288"),
-        ("len(states) == num_anneals * len_state", "_canneal.c:289"),
-        (_STATES_IN, "_canneal.c:291-302; _anneal.py:300-303 and docstring (:184-186)"),
+        ("len(Ts) == len_Ts", "_canneal.c:268-269"),
+        ("initialised(Ts, len_Ts)", "_canneal.c:284-286"),
+        ("len(values) == num_anneals", "_canneal.c:289"),
+        ("len(states) == num_anneals * len_state", "_canneal.c:290"),
+        (_STATES_IN, "_canneal.c:292-303; _anneal.py:300-303 and docstring (:184-186)"),
     ],
     "assumes": [
         ("num_anneals * len_state <= INT_MAX",
-         "size product fits in int: _canneal.c:289 and the kernel's i * len_state + j are int computations; not bounded by the front end"),
+         "size product fits in int: _canneal.c:290 and the kernel's i * len_state + j are int computations; not bounded by the front end"),
         ("len(terms) < INT_MAX",
          "the kernel stores the running count of terms per spin, subgraphs[j][0] (a long), into the int k and computes k+1 in int; "
          "the count is bounded by the total number of term entries, which nothing bounds below 2^31"),
